@@ -117,15 +117,17 @@ class Tok:
         return "Tok(%d)" % self.code
 
 
+_repl_counter = [0]
+
+
 def fresh_repl():
-    """hy.REPL() reuses the module `__console__` of earlier instances in the same process; a session of this
-    check must start like a new process, so leftovers of earlier sessions are removed"""
-    import hy
+    """hy.REPL() reuses the module named by locals['__name__'] (default `__console__`) of earlier instances in the same
+    process; a session of this check must start like a new process, so every session gets a module of its own"""
     from hy.repl import REPL
-    repl = REPL()
-    for k in list(repl.locals):
-        if k in (hy.mangle("*e"), "_hy_exc_info") or k.startswith("_c40_") or re.fullmatch(r"q\d+|t|z", k):
-            repl.locals.pop(k, None)
+    _repl_counter[0] += 1
+    name = "__c40_console_%d__" % _repl_counter[0]
+    repl = REPL(locals={"__name__": name})
+    sys.modules.pop(name, None)
     return repl
 
 
@@ -345,7 +347,15 @@ def oracle(chk, n_sessions):
                 for li, line in enumerate(inp["lines"]):
                     buf.append(line)
                     with contextlib.redirect_stdout(out), contextlib.redirect_stderr(err):
-                        more = repl.push(line)
+                        try:
+                            more = repl.push(line)
+                        except Exception as ex:  # noqa: BLE001  nothing but SystemExit may leave push()
+                            more = False
+                            repl.resetbuffer()
+                            chk.fail("exception-escaped-push", {"lines_so_far": buf + [], "earlier_inputs": history[-4:]},
+                                     "%s: %s" % (type(ex).__name__, ex), "push() returns",
+                                     "PYTHONPATH=%s python -c \"import hy; r=hy.REPL(); print([r.push(l) for l in %r])\""
+                                     % (vlib.REPO, [l for h in history for l in h.split("\n")] + buf))
                     want_more = not complete("\n".join(buf))
                     desc = {"lines_so_far": list(buf), "earlier_inputs": history[-4:]}
                     how = "PYTHONPATH=%s python -c \"import hy; r=hy.REPL(); print([r.push(l) for l in %r])\"" % (vlib.REPO, buf)
@@ -381,7 +391,11 @@ def oracle(chk, n_sessions):
                     if printed != "":
                         chk.fail("printed-a-value-for-a-failed-input", desc, printed, "", how)
                     if e is None or type(e).__name__ != exp[1]:
-                        chk.fail("star-e-is-not-the-latest-exception", desc, type(e).__name__, exp[1], how)
+                        chk.fail("star-e-is-not-the-latest-exception", dict(desc, lines=len(inp["lines"])),
+                                 type(e).__name__, exp[1], how)
+                    last = getattr(sys, "last_exc", None)
+                    if last is not e:
+                        chk.fail("sys-last-exc-is-not-star-e", desc, repr(last)[:80], repr(e)[:80], how)
                     # "a failed input never makes two of them repeat one input's result": all results are
                     # pairwise different integers, so any two equal non-None slots repeat one input's result
                     nn = [x for x in slots if x is not None]
@@ -423,5 +437,9 @@ def run(chk):
                 "(b) real sessions of 1..7 generated inputs (single-line, multi-line, two forms, None-valued, run-time, "
                 "name, compile and lexer errors, strings with newlines) pushed line by line. non-trivial = a session prefix "
                 "that contains a failing or multi-line input or more than one input")
-    correspondence(chk, 1500 if thorough else 250)
+    try:
+        correspondence(chk, 1500 if thorough else 250)
+    except Exception:  # noqa: BLE001  a broken model / tie must not stop the search for a failing input
+        import traceback
+        chk.obligation("correspondence machinery ran", False, traceback.format_exc()[-1500:])
     oracle(chk, 3000 if thorough else 400)
